@@ -141,7 +141,7 @@ func IsCompleteComment(raw string) bool {
 func Lex(s string) Result {
 	var res Result
 	i := 0
-	prev := ""      // kind of the previous significant token
+	prev := ""       // kind of the previous significant token
 	dotMode := false // the previous token was a "." that followed an identifier-like token
 	for {
 		// trivia
